@@ -1,3 +1,5 @@
+CONSTANTS
+  MaxAge = 604800
 INIT Init
 NEXT Next
 INVARIANT Judge
